@@ -180,7 +180,18 @@ class _Gen(object):
             branches = [[['assign', name, c + call]] for c in cls]
             st = ['if', self.expr(1), branches[0], [[self.expr(1), b] for b in branches[1:-1]], branches[-1]]
             self.budget -= n
-            return ['seq', defs + [st, ['expr', 'print(%s.attr, %s.meth)' % (name, name)], ['assign', self.var(), name + '.attr']]]
+            tail = [st, ['expr', 'print(%s.attr, %s.meth)' % (name, name)], ['assign', self.var(), name + '.attr']]
+            if r.random() < 0.6:
+                # a second name whose alternatives are the first (itself multiply bound) and one more instance
+                other = r.choice([v for v in self.names if v != name] or [name + '2'])
+                extra = 'KZ'
+                defs.append(['class', extra, [], [['assign', 'attr', "'KZ'"], ['def', 'meth', ['self'], [['return', "'KZ'"]]]]])
+                branches2 = [[['assign', other, name]], [['assign', other, extra + call]]]
+                if r.random() < 0.5:
+                    branches2.reverse()
+                tail += [['if', self.expr(1), branches2[0], [], branches2[1]],
+                         ['expr', 'print(%s.attr, %s.meth)' % (other, other)]]
+            return ['seq', defs + tail]
         if shape == 'ifchain':
             branches = [[self.binding(name, depth, in_loop, in_func, j)] for j in range(n)]
             has_else = r.random() < 0.6
